@@ -25,6 +25,7 @@ type c07Plan struct {
 	Second    bool `json:"second"`     // a second truncation after 1000 more vertices
 	FollowUps int  `json:"follow_ups"` // operations after each truncation
 	Rogue     bool `json:"rogue"`
+	Bulky     int  `json:"bulky"` // number of region vertices carrying a 48 KB contract payload (0 = none)
 }
 
 func c07f(m *lm, s *sim.Snap, tip ref.Hash, addr string) *big.Int {
@@ -140,8 +141,12 @@ func (m *lm) c07Truncate(round int) map[ref.Hash]struct{} {
 				hasLiveParent = true
 			}
 		}
-		if !hasLiveParent {
+		if !hasLiveParent || !m.descendsFromAll(tp, moved) {
 			staleTips[tp] = true
+			if m.staleTips == nil {
+				m.staleTips = map[ref.Hash]bool{}
+			}
+			m.staleTips[tp] = true
 			m.label("c07:stale-tip-at-cut")
 		}
 	}
@@ -273,6 +278,10 @@ func (m *lm) c07FollowUps(n int) {
 					sig := "twin-rejects-what-truncated-node-created"
 					if m.checkpointOverdrawn() {
 						sig = "checkpoint-clips-overdrawn-wallet"
+					} else if m.buildsOnStaleTip(r.Vertex) {
+						// the truncated node judged a tip that does not descend from the cut against the global
+						// checkpoint, the twin against that tip's own (shorter) history: the known per-tip/global mismatch
+						sig = "balance-changed-at-tip-not-descending-from-cut"
 					}
 					m.addViol("C07", sig, "vertex %s created by the truncated node on tips it validated against its checkpoint is rejected by the twin that validates against the full history: %v", m.describe(r.Vertex), d.Err)
 				}
@@ -306,6 +315,8 @@ func (m *lm) c07FollowUps(n int) {
 					sig := "twin-outcome-differs"
 					if m.checkpointOverdrawn() {
 						sig = "checkpoint-clips-overdrawn-wallet"
+					} else if m.buildsOnStaleTip(res.Vertex) {
+						sig = "balance-changed-at-tip-not-descending-from-cut"
 					}
 					m.addViol("C07", sig, "gossip of %s: truncated node says %v, twin (full history) says %v", m.describe(res.Vertex), da.Err, db.Err)
 				}
@@ -336,6 +347,26 @@ func (m *lm) checkpointOverdrawn() bool {
 	return false
 }
 
+// buildsOnStaleTip: one of the vertex's parents (or their ancestors among the tips recorded at the cut) is a tip
+// that did not descend from the cut.
+func (m *lm) buildsOnStaleTip(v *accountant.Vertex) bool {
+	if v == nil || len(m.staleTips) == 0 {
+		return false
+	}
+	anc := m.w.Arch.Anc(v.Hash)
+	for h := range m.staleTips {
+		if _, ok := anc[h]; ok || v.Hash == h {
+			return true
+		}
+	}
+	for _, p := range ref.Parents(v) {
+		if m.staleTips[p] {
+			return true
+		}
+	}
+	return false
+}
+
 func weightRule(err error) bool {
 	return err != nil && strings.Contains(err.Error(), "minimal weight")
 }
@@ -358,6 +389,7 @@ func c07Run(rt *rapid.T, p c07Plan, seed string) (*lm, []string, error) {
 	if err != nil {
 		return m, nil, err
 	}
+	m.evalC02 = c07EvalC02
 	const A, B = 0, 1
 	var log []string
 	step := func(desc string) {
@@ -381,6 +413,17 @@ func c07Run(rt *rapid.T, p c07Plan, seed string) (*lm, []string, error) {
 		case "deliverAll":
 			step(m.opDeliverAll())
 		}
+	}
+	// bulky contract payloads (the notary admits up to megabytes): the cut then moves more than ten megabytes at once
+	for i := 0; i < p.Bulky && m.stuck == nil; i++ {
+		r := m.w.Apply(sim.Op{K: "propose", N: A, From: 1 + i%3, To: 0, Data: 48 * 1024})
+		if r.Err == nil {
+			m.w.Apply(sim.Op{K: "deliver", N: B, V: m.w.OrderIndex(r.Vertex.Hash)})
+		}
+	}
+	if p.Bulky > 0 {
+		step(fmt.Sprintf("%d vertices with 48 KB payloads", p.Bulky))
+		m.label("plan:bulky")
 	}
 	rounds := 1
 	if p.Second {
@@ -449,6 +492,8 @@ func c07Run(rt *rapid.T, p c07Plan, seed string) (*lm, []string, error) {
 	return m, log, nil
 }
 
+var c07EvalC02 bool
+
 func TestC07(t *testing.T) {
 	st := newStats(t, "C07", "cases = two-node worlds (A truncates, twin B never does) with a generated region near genesis (proposals at either node, rogue side branches, delayed delivery, boundary amounts), >=1001 filler vertices, the real truncate, optionally a late vertex on an old parent (tip not descending from the cut) and a second truncation after 1001 more vertices, then re-submission of moved vertices/transactions and follow-up proposals/gossip offered to both nodes; oracle = per-tip per-address balance equality across the cut, by-hash reads identical, moved == newly checkpointed and ancestor-closed, checkpoint funds == net flow of checkpointed vertices, re-submission refused with unchanged snapshot, twin accepts what A creates; non-trivial = at least one spice-transfer vertex was moved to storage; distinct by operation-log fingerprint")
 	sim.Chdir(workDir(t))
@@ -466,6 +511,9 @@ func TestC07(t *testing.T) {
 			Second:    rapid.IntRange(0, 2).Draw(rt, "second") == 0,
 			FollowUps: rapid.IntRange(2, 12).Draw(rt, "followUps"),
 			Rogue:     rapid.Bool().Draw(rt, "rogue"),
+		}
+		if rapid.IntRange(0, 7).Draw(rt, "bulky") == 0 {
+			p.Bulky = rapid.IntRange(215, 260).Draw(rt, "bulkyN")
 		}
 		seed := fmt.Sprintf("C07-%d-%d", shard(), caseNo)
 		m, log, err := c07Run(rt, p, seed)
